@@ -42,6 +42,27 @@
 (* Verdicts are total: a term without denotation is reported once          *)
 (* (classified: operator / operand_order / distinct_share / constant_value *)
 (* / constant_type) and then treated as denoting anything.                 *)
+(*                                                                         *)
+(* Constants are matched by VALUE: RowVal gives the value of a constant    *)
+(* expression of the language (literals - the decimal -> binary conversion *)
+(* of the parser is re-verified by DecIsRN -, signed literals, math.inf,   *)
+(* numpy.float32(...), numpy.finfo(T).max, std::numeric_limits<T>::max(),  *)
+(* M_PI, casts ...), NodeVal the value a constant node denotes in the      *)
+(* target (the stored object in Python, the stored value converted to the  *)
+(* node's type elsewhere), ConstDenotes compares them (Python: same class  *)
+(* and value; NumPy: same format, bit for bit; C++: the same number - the  *)
+(* type the text computes in is judged by CppTypingFails).                 *)
+(* Leniencies: complex literals are not interpreted (a complex constant    *)
+(* expression may denote any complex constant node; execution covers       *)
+(* them); constant nodes the driver could not encode match any constant    *)
+(* expression; T(p) with T the declared type of parameter p is p; kinds in *)
+(* WildKinds are matched against the package's own template; nothing above *)
+(* an undefined name is judged again; integer-typed nodes are not subject  *)
+(* to the C++ typing clause.                                               *)
+(*                                                                         *)
+(* Reuse (C06): bring an impl sequence (one set of patterns per node) and  *)
+(* call RunProgram; add branches for the new target to TypeNames / RowVal  *)
+(* if its constants are to be matched by value.                            *)
 (***************************************************************************)
 EXTENDS IEEE, FiniteSets, TLC
 
